@@ -481,6 +481,26 @@ class PolyArr:
     A = abs(M)
     return np.asarray(A @ mx).reshape(self.shape)
 
+  def bounds(self):
+    """Per-element interval [lo, hi] of the value over the box (interval arithmetic on the
+    normal form)."""
+    M = _csr(self._aligned()).copy()
+    M.sum_duplicates()
+    cols = np.unique(M.indices)
+    L = np.zeros(M.shape[1]); H = np.zeros(M.shape[1])
+    if len(cols):
+      l, h = self.sp.mono_bounds(cols)
+      L[cols] = l; H[cols] = h
+    P = M.maximum(0); N = M.minimum(0)
+    lo = np.asarray(P @ L + N @ H).reshape(self.shape)
+    hi = np.asarray(P @ H + N @ L).reshape(self.shape)
+    return lo, hi
+
+  def select_rows(self, mask) -> 'PolyArr':
+    """Elements where mask is False are replaced by 0."""
+    m = np.broadcast_to(np.asarray(mask, bool), self.shape).reshape(-1).astype(float)
+    return PolyArr(self.shape, _csr(sps.diags(m) @ _csr(self._aligned())), self.sp)
+
   def max_degree(self) -> int:
     M = _csr(self.M)
     cols = np.unique(M.indices[M.data != 0])
